@@ -34,6 +34,13 @@ pub trait Basic {
     fn b_pin(self: Pin<&Self>) -> u64;
     fn b_pin_mut(self: Pin<&mut Self>, v: u64) -> u64;
     extern "C" fn b_c_mut(&mut self, v: i32) -> i32;
+    /// default method with a `where` clause, overridden by the implementors
+    fn b_where(&mut self, v: u64) -> u64
+    where
+        Self: Sized,
+    {
+        self.b_add(v) ^ 1
+    }
 }
 
 /// Only shared receivers: usable through by-reference and reference-counted containers.
@@ -168,11 +175,31 @@ pub trait ChildrenMore {
     fn m_peek(&self) -> u64;
 }
 
+/// Four tiny traits whose names order differently with and without regard to case
+/// (IOPort < Inspect and KVStore < KeyDumper case-sensitively; the other way round otherwise).
+#[cglue_trait]
+pub trait IOPort {
+    fn io_read(&self, port: u32) -> u64;
+}
+#[cglue_trait]
+pub trait Inspect {
+    fn inspect(&self) -> u64;
+}
+#[cglue_trait]
+pub trait KVStore {
+    fn kv_put(&mut self, k: u64, v: u64) -> u64;
+}
+#[cglue_trait]
+pub trait KeyDumper {
+    fn key_dump(&self, n: u32) -> u64;
+}
+
 // groups --------------------------------------------------------------------------------------
 
 cglue_trait_group!(GrpR, ReadOnly, { IntResAlias });
 cglue_trait_group!(GrpA, Basic, { Shapes, IntRes });
 cglue_trait_group!(GrpB, { Basic, Clone }, { Shapes, Children, Consume, Gen<usize> = GenUsize });
+cglue_trait_group!(GrpD, { Inspect, IOPort }, { KeyDumper, KVStore });
 cglue_trait_group!(GrpC, { ReadOnly, Consume }, { Basic, ChildrenMore, Gen<u64> = GenU64, Gen<usize> = GenUsize });
 
 // -------------------------------------------------------------------------------------------
@@ -239,6 +266,10 @@ macro_rules! implementor {
             extern "C" fn b_c_mut(&mut self, v: i32) -> i32 {
                 self.core.enter("b_c_mut", v as u64, &[]);
                 self.core.mix(v as u64) as i32
+            }
+            fn b_where(&mut self, v: u64) -> u64 {
+                self.core.enter("b_where", v, &[]);
+                self.core.mix(v ^ 0x3E7E).wrapping_add(1000)
             }
         }
 
@@ -507,6 +538,31 @@ macro_rules! implementor {
             }
         }
 
+        impl IOPort for $name {
+            fn io_read(&self, port: u32) -> u64 {
+                self.core.enter("io_read", port as u64, &[]);
+                self.core.mix(port as u64 ^ 0x10)
+            }
+        }
+        impl Inspect for $name {
+            fn inspect(&self) -> u64 {
+                self.core.enter("inspect", 0, &[]);
+                self.core.get() ^ 0x1115
+            }
+        }
+        impl KVStore for $name {
+            fn kv_put(&mut self, k: u64, v: u64) -> u64 {
+                self.core.enter("kv_put", d2(k, v), &[]);
+                self.core.mix(k ^ v.rotate_left(9))
+            }
+        }
+        impl KeyDumper for $name {
+            fn key_dump(&self, n: u32) -> u64 {
+                self.core.enter("key_dump", n as u64, &[]);
+                self.core.mix(n as u64 ^ 0xD0)
+            }
+        }
+
         impl ChildrenMore for $name {
             type MChild = $name;
             fn m_consume(self, salt: u64) -> $name {
@@ -533,6 +589,7 @@ pub trait HasMask {
     const GRP_R: u32;
     const GRP_B: u32;
     const GRP_C: u32;
+    const GRP_D: u32;
 }
 
 // `Solo`: the type of every child; enables everything in the groups children are wrapped in.
@@ -544,6 +601,7 @@ impl HasMask for Solo {
     const GRP_R: u32 = 1;
     const GRP_B: u32 = 0;
     const GRP_C: u32 = 0;
+    const GRP_D: u32 = 0;
 }
 
 // One implementor type per enabled subset of each group's optional traits (generated).
